@@ -377,6 +377,10 @@ const c11kindsModule = `module g { namespace "urn:g"; prefix g; import gi { pref
  container t { leaf keep { type string; } }
  augment "/t" { if-feature f; leaf al { type string; } }
  container two { if-feature f; if-feature h; }
+ leaf pf1 { if-feature "g:f"; type string; } leaf pf2 { if-feature "gi:k and g:h"; type string; } leaf pf3 { if-feature "not gi:k"; type string; }
+ leaf ws1 { if-feature "f	and
+   h"; type string; } leaf ws2 { if-feature "(f
+ or h)	and not sf"; type string; }
  container two2 { if-feature "f or h"; if-feature "sf"; } leaf two3 { if-feature "sf"; if-feature "f or h"; type string; } leaf two4 { if-feature "not f or h"; if-feature "sf or f"; if-feature "not (sf and h)"; type string; }
  choice ch3 { case a3 { leaf a3l { type string; } } case b3 { if-feature f; leaf b3l { type string; } } case z3 { uses grp; container z3c { leaf zz { if-feature h; type string; } leaf zk { type string; } } } }
  grouping grp2 { container gc { leaf in { type string; } } }
@@ -412,6 +416,8 @@ func c11kinds(c *core.Ctx) {
 				"/c": fOn, "/li": fOn, "/lf": fOn, "/ll": fOn, "/ch": fOn, "/ch2/k1": fOn, "/ch2/k2": true,
 				"/u/gl": fOn, "/r/gl2": true, "/r/gl3": true, "/t/keep": true, "/t/al": fOn, "/two": fOn && hOn,
 				// several if-feature statements on one node: each is an expression of its own, all must hold
+				// names with the prefix of the module itself or of an imported module; tabs and line breaks between the words
+				"/pf1": fOn, "/pf2": kOn && hOn, "/pf3": !kOn, "/ws1": fOn && hOn, "/ws2": (fOn || hOn) && !sOn,
 				"/two2": (fOn || hOn) && sOn, "/two3": sOn && (fOn || hOn), "/two4": (!fOn || hOn) && (sOn || fOn) && !(sOn && hOn),
 				// a case behind a feature-disabled case is still resolved: its uses is expanded, its own guards apply
 				"/ch3/a3/a3l": true, "/ch3/b3": fOn, "/ch3/z3/gl": true, "/ch3/z3/gl2": true, "/ch3/z3/z3c/zz": hOn, "/ch3/z3/z3c/zk": true,
